@@ -12,6 +12,7 @@ import (
 	"os"
 	"path/filepath"
 	"reflect"
+	"testing"
 )
 
 type vCountingReader struct {
@@ -448,7 +449,13 @@ func init() {
 			}
 			return 3200
 		},
-		Run: vRunC15,
+		Run: func(c *vCase) {
+			if f := os.Getenv("VERIF_FUZZ_INPUT"); f != "" {
+				vFuzzReplay(c, f)
+				return
+			}
+			vRunC15(c)
+		},
 		Meta: vMeta{
 			Level: "exploration",
 			Rule:  "case = 60 hostile byte strings (random bytes; hand-assembled headers with every TLV type incl. shape without format, empty/multi-type/unknown formats, bad sizes and truncation; mutations of the repository's captured packets and of constructor-built packets) through ReadPacket and every accessor, plus 30 round trips of constructor-built packets (16/32/64 bit, 1-4 dims, offsets, sequence numbers, timestamps); a panic anywhere is a process crash attributed to the journaled case (the input is written to disk first)",
@@ -459,4 +466,41 @@ func init() {
 			},
 		},
 	})
+}
+
+// ---------------------------------------------------------------- coverage-guided fuzzing (thorough tier)
+
+// FuzzVerifPacket runs the same totality/consistency oracle under Go's native, coverage-guided fuzzer.
+// The driver builds the binary with -fuzz and runs it with -test.fuzz for a fixed time in the thorough tier.
+func FuzzVerifPacket(f *testing.F) {
+	vLoadSeedPackets()
+	for _, b := range vSeedPackets {
+		f.Add(b)
+	}
+	r := rand.New(rand.NewSource(1))
+	for i := 0; i < 40; i++ {
+		f.Add(vHandPacket(r))
+		if p := vBuildPacket(r); p != nil {
+			f.Add(p.Bytes())
+		}
+	}
+	f.Fuzz(func(t *testing.T, b []byte) {
+		c := &vCase{}
+		c.res.Kind = "held"
+		vDecodeOne(c, b)
+		if c.Violated() {
+			t.Fatalf("VERIF-FUZZ-VIOLATION %s :: %s", c.res.Sig, c.res.Detail)
+		}
+	})
+}
+
+// vFuzzReplay: the driver replays a failing fuzz input through the oracle (VERIF_FUZZ_INPUT = file with the raw bytes).
+func vFuzzReplay(c *vCase, path string) {
+	b, err := os.ReadFile(path)
+	if err != nil {
+		c.Inconclusive("replay", "%v", err)
+		return
+	}
+	c.Describe("fuzz input %x", b)
+	vDecodeOne(c, b)
 }
